@@ -12,7 +12,7 @@ def run(ver):
     core.validate_traces(ver, binp, "c01", "Trace_Typed", wd, gen_args=["500"], only_why={"rt", "enc", "alt"})
     # data::Token is one of the listed types: token sequences written through its Encode impl and read back through its Decode impl
     # (the events of C11, verdict restricted to the encode-then-tokenise direction; integer tokens compared by numeric value)
-    core.validate_traces(ver, binp, "c11", "Trace_C11", wd, stage="trace_tokens", gen_args=["400" if ver.tier == "quick" else "4000"], only_name={"toks"})
+    core.validate_traces(ver, binp, "c11", "Trace_C11", wd, stage="trace_tokens", gen_args=["400" if ver.tier == "quick" else "4000"], only_name={"toks"}, only_why={"tokrt", "tokboth"})
     ver.assumptions += ["TLC evaluates the TLA+ operators correctly",
                         "the harness projection (types.rs) of Rust values to generic value trees is structural and faithful; unordered collections are projected sorted",
                         "values are boundary-first random draws per instantiation, not all values; lossy-by-construction shapes (nested Option, v6 flow-info/scope-id, "
